@@ -17,9 +17,9 @@ PROP = dict(
     rule="case = one request history (sequence of letters) replayed on fresh thread_local caches; non-trivial = length >= 2; "
          "states = distinct (K, alphabet, complex key list, real key list) reached; transitions = histories executed (each checks its last "
          "request); traces_validated_against_impl = the same executions (no separate model)",
-    bounds=dict(quick="K in {1,2,4}; alphabets A,B,C,E,G: all sequences of length <= 6 over 6 letters (55986 each); D, F: length <= 5 over 10 letters; "
+    bounds=dict(quick="K in {1,2,4}; alphabets A,B,C,E,G: all sequences of length <= 6 over 6 letters (55986 each); J (requests on 1e308-scale data that overflow, then ordinary ones): length <= 4; D, F: length <= 5 over 10 letters; "
                       "alphabet H (lengths 65536, 65552, 131072, 98304, prime 4099): length <= 3; alphabet I (70747 = 263*269, 66049 = 257^2, prime 100003, 2*66049, 66047, 263^2): length <= 2; long sequence 2 x 2000 requests; ASan pass depth 4",
-                thorough="alphabets A,B,C,E,G: length <= 9 (12.1M each per K); D, F: length <= 6 (1.1M each per K); H: length <= 4; I: length <= 3; long sequences 4 x 10^4; ASan pass depth 5"),
+                thorough="J: length <= 6; alphabets A,B,C,E,G: length <= 9 (12.1M each per K); D, F: length <= 6 (1.1M each per K); H: length <= 4; I: length <= 3; long sequences 4 x 10^4; ASan pass depth 5"),
     deadline=dict(quick=150, thorough=3000),
     passes=[
         dict(name="k1", cache_size=1),
